@@ -54,6 +54,11 @@ CHECKS = {
         text="exhaustive: 2 threads x 2 extractions x <= 3 environment actions per attribute vector (own glue, built-in, both, raising, importing, removing); replay: the controller releases exactly the thread TLC scheduled and compares sys.modules, pending table, module attributes, cache, lock, call log; the property is also evaluated on the real state at every extraction return",
         note="F4 (length-only cache) known finding with an independent history signature; F9 fixed; re-created module objects and re-entrant glue (O3) not modelled",
         ref="3.4, 4 C17"),
+    "C09": dict(
+        technique="TLA+ spec of ExitStack callback lists and of the expected Context tree of a manager tree (CtxTree.tla: ExitStackOps, Unfold) on given trees; real trees built and extracted, compared node by node; exit stacks compared after each operation on the live object",
+        text="all depth-1 trees, all registration-operation sequences up to length 2 (thorough 3) over the 10 registration methods + pop_all/close, sampled deeper trees; suspended in the body and while the root is exiting; 3.9-3.12",
+        note="push(manager) and enter_context(manager) are observationally identical (both store manager.__exit__) and are expected to render alike; exiting variants for async plain / generator-based roots only",
+        ref="3.2, 4 C09"),
     "C11": dict(
         technique="TLA+ spec of fill_context's loop and the contextlib glue's unwrap paths on given hook tables (FillContext.tla); TLC checks call-pattern / reset / prune / guard on every history; tables replayed through the public hooks outside and inside an extraction",
         text="every chain of length 0..4 over plain / generator-based (registered or not) managers with every ending and elaborate effect, exiting or not, cycles with the real bound 100, plus seeded random tables; final Context and hook call log compared on 3.9-3.12",
